@@ -177,6 +177,7 @@ def run(idx: ProgramIndex, rep: Report, tier: str):
     rep.rule("C05-3", "LCMKernel = sum over all member multitask kernels")
     piecewise_polynomial(idx, rep)
     derivative_chain(idx, rep)
+    optional_parameters(idx, rep)
     K = "gpytorch.kernels.kernel"
     for cname, op, opname in (("AdditiveKernel", ast.Add, "+"), ("ProductKernel", ast.Mult, "*")):
         C = idx.cls(K, cname)
@@ -480,3 +481,59 @@ def derivative_chain(idx: ProgramIndex, rep: Report):
         rep.add("C05-8", "%s:PolynomialKernelGrad.forward[%s branch]" % (C.module.name, label), fw.where, not probs,
                 "u^p, p u^(p-1), (p^2 - p) u^(p-2) in the same u = %s" % (sorted(bases)[0][1][:50] if bases else "?") if not probs else "; ".join(probs), {})
     rep.floor("C05-8", "branches of PolynomialKernelGrad.forward", n, 2)
+
+
+# ---- C05-9 ---------------------------------------------------------------------------------------------------------
+def optional_parameters(idx: ProgramIndex, rep: Report):
+    """A parameter whose default is None stands for "derive it" (the documented default of sum_interaction_terms' max_degree is D).  In the
+    kernel and utility code every such parameter is tested for None, re-bound, or only handed on - except where the default was forgotten:
+    there the None reaches arithmetic / a size argument / an attribute access, and the documented default call raises."""
+    rep.rule("C05-9", "in gpytorch.kernels and gpytorch.utils a parameter with default None is tested for None (or re-bound) before it is used in arithmetic, as a size, or dereferenced: the documented default call works")
+    n = 0
+    for fi in sorted(idx.all_functions(), key=lambda f: (f.module.name, f.qualname)):
+        if not (fi.module.name.startswith("gpytorch.kernels") or fi.module.name.startswith("gpytorch.utils")):
+            continue
+        a = fi.node.args
+        names = [x.arg for x in a.posonlyargs + a.args]
+        defaults = dict(zip(names[len(names) - len(a.defaults):], a.defaults))
+        for k, d in zip(a.kwonlyargs, a.kw_defaults):
+            if d is not None:
+                defaults[k.arg] = d
+        for pn, d in sorted(defaults.items()):
+            if not (isinstance(d, ast.Constant) and d.value is None):
+                continue
+            n += 1
+            # events in source order: ('guard' | 'rebind' | 'use', line)
+            events = []
+            for x in ast.walk(fi.node):
+                if isinstance(x, ast.Compare) and any(isinstance(y, ast.Name) and y.id == pn for y in [x.left] + x.comparators) and any(isinstance(o, (ast.Is, ast.IsNot, ast.Eq, ast.NotEq)) for o in x.ops):
+                    events.append((x.lineno, 0, "guard"))
+                if isinstance(x, ast.Call) and isinstance(x.func, ast.Name) and x.func.id in ("isinstance", "hasattr", "callable") and x.args and isinstance(x.args[0], ast.Name) and x.args[0].id == pn:
+                    events.append((x.lineno, 0, "guard"))
+                if isinstance(x, (ast.If, ast.IfExp, ast.While)) and any(isinstance(y, ast.Name) and y.id == pn for y in ast.walk(x.test)):
+                    events.append((x.test.lineno, 0, "guard"))
+                if isinstance(x, ast.BoolOp) and any(isinstance(y, ast.Name) and y.id == pn for y in x.values):
+                    events.append((x.lineno, 0, "guard"))
+                if isinstance(x, (ast.Assign, ast.AugAssign, ast.AnnAssign)):
+                    tg = x.targets if isinstance(x, ast.Assign) else [x.target]
+                    if any(isinstance(t, ast.Name) and t.id == pn for t in tg):
+                        events.append((x.lineno, 1, "rebind"))
+                use = None
+                if isinstance(x, ast.BinOp) and any(isinstance(y, ast.Name) and y.id == pn for y in (x.left, x.right)):
+                    use = x
+                if isinstance(x, ast.Call) and (chain(x.func) or "") in ("range", "torch.arange", "torch.zeros", "torch.ones", "torch.eye", "len", "int", "float") and any(isinstance(y, ast.Name) and y.id == pn for y in x.args):
+                    use = x
+                if isinstance(x, ast.Attribute) and isinstance(x.value, ast.Name) and x.value.id == pn:
+                    use = x
+                if isinstance(x, ast.Subscript) and isinstance(x.value, ast.Name) and x.value.id == pn:
+                    use = x
+                if use is not None:
+                    events.append((use.lineno, 2, "use:" + " ".join(src(use).split())[:40]))
+            events.sort()
+            first = next((e for e in events), None)
+            bad = first is not None and first[2].startswith("use:")
+            if bad:
+                rep.add("C05-9", "%s:%s[%s=None]" % (fi.module.name, fi.qualname, pn), "%s:%d" % (fi.module.relpath, first[0]), False,
+                        "the parameter `%s` defaults to None and reaches `%s` without a test for None or a re-binding: the call with the default raises (the documented default has to be derived first)" % (pn, first[2][4:]), {})
+    rep.add("C05-9", "gpytorch.kernels / gpytorch.utils:<parameters with default None>", "gpytorch/", True, "%d parameter(s) inspected" % n, {"parameters": n}, trivial=True)
+    rep.floor("C05-9", "parameters with default None in kernels / utils", n, 60)
